@@ -159,12 +159,14 @@ def runTaskDone (st : State) (u : Nat) : Option State :=
         if (st.futs sf) matches .cancelled _ ∧ e.isCancelledError then some st
         else if (st.futs sf).done then
           let st := if e.isCancelledError then st else
-            st.setGroup g (fun x => { x with exceptions := x.exceptions ++ e.leaves })
+            st.setGroup g (fun x =>
+              { x with exceptions := x.exceptions ++ e.leaves, routed := u :: x.routed })
           some (if effCancelled st gs then st else cancelScope st gs false)
         else some (resolveFut st sf (.failed e))
       | none =>
         let st := if e.isCancelledError then st else
-          st.setGroup g (fun x => { x with exceptions := x.exceptions ++ e.leaves })
+          st.setGroup g (fun x =>
+            { x with exceptions := x.exceptions ++ e.leaves, routed := u :: x.routed })
         some (if effCancelled st gs then st else cancelScope st gs false)
   | _, _, _ => none
 
@@ -436,14 +438,17 @@ def step (st : State) : Ev → Option (State × Out)
     match st.running with
     | none => none
     | some t =>
+      -- API discipline: `async with` leaves the group in the task that entered it, innermost first
       if g ≥ st.nGroups ∨ (st.tasks t).lib ≠ .none ∨ !(st.groups g).entered ∨ (st.groups g).exited
+          ∨ (st.tasks t).scope ≠ some (st.groups g).scope
       then none else
       let gs := (st.groups g).scope
       let st :=
         if ev ≠ .none then
           let st := cancelScope st gs false
           if ev.isCancelledError then st
-          else st.setGroup g (fun x => { x with exceptions := x.exceptions ++ ev.leaves })
+          else st.setGroup g (fun x =>
+            { x with exceptions := x.exceptions ++ ev.leaves, bodyErrs := ev.leaves })
         else st
       if (st.groups g).tasks = [] then
         let (st, s) := newScope st true none
